@@ -140,6 +140,46 @@ example : byNumber [⟨"10.d".toList, true⟩, ⟨"Method".toList, true⟩, ⟨"
     ⟨"100.d".toList, true⟩, ⟨"7.d".toList, false⟩] = ["9.D".toList, "10.d".toList, "100.d".toList] := by
   rw [byNumber_eq_spec _ (by decide)]; decide
 
+/-- `collect_datafiles` as a whole (any list of methods, any subset of metadata files present, any
+directory content): the mechanism returns what the specification of each reader returns, given
+only that BatchLog.csv's texts fit its columns (`U4`, `U264`) and that the data directories carry
+pairwise distinct numbers.  This discharges the `hlines` hypothesis of `stack_pixel`/`csv_pixel`. -/
+theorem collect_eq_spec (m : Meta) (methods : List Method)
+    (hcsv : ∀ rows, m.csv = some rows →
+      ∀ r ∈ rows, (r.result.take 4 = pass → r.result = pass) ∧ r.file.length ≤ 264)
+    (hnum : ∀ a ∈ dataDirs m.listing, ∀ b ∈ dataDirs m.listing, digitsVal a = digitsVal b → a = b) :
+    collect m false methods = collect m true methods ∧ linesOf m false methods = linesOf m true methods := by
+  have hsrc : ∀ meth, m.source false meth = m.source true meth := by
+    intro meth
+    cases meth with
+    | batchXml =>
+      simp only [Meta.source]
+      cases m.xml with
+      | none => rfl
+      | some l => simp [(batchXml_spec l).1]
+    | batchCsv =>
+      simp only [Meta.source]
+      cases hc : m.csv with
+      | none => rfl
+      | some rows =>
+        simp only [Option.map_some, Bool.false_eq_true, if_false, if_true]
+        rw [batchCsv_eq, csvNames_eq_spec rows (hcsv rows hc)]
+    | acqMethod => rfl
+    | alphabetical => rfl
+  have hc : collect m false methods = collect m true methods := by
+    induction methods with
+    | nil => rfl
+    | cons meth rest ih =>
+      cases meth with
+      | alphabetical => simp [collect, byNumber_eq_spec m.listing hnum]
+      | batchXml => simp only [collect, hsrc, ih]
+      | batchCsv => simp only [collect, hsrc, ih]
+      | acqMethod => simp only [collect, hsrc, ih]
+  refine ⟨hc, ?_⟩
+  unfold linesOf
+  rw [hc]
+  simp [byNumber_eq_spec m.listing hnum]
+
 /-! ## binary decoding -/
 
 /-- Every scan `r < R` of every mass `j < k` — for every `R ≥ 1`, `k ≥ 1`, so `k = 1` and `k = 2`
